@@ -24,10 +24,11 @@ static CaseResult wrap_case(Tape &t)
 		for (auto &pp : R.peers) { for (auto &pkt : pp->up_completed) if (pkt == w.data) found = true; for (auto &pkt : pp->up_abandoned) if (pkt == w.data) found = true; if (pp->up_active && pp->up_cur_pkt == w.data) found = true; }
 		bool merged = false;
 		if (!found) for (auto &pp : R.peers) for (auto &pkt : pp->up_abandoned) if (pkt.size() == w.data.size() && pkt.size() > 32 && !memcmp(pkt.data(), w.data.data(), 30)) merged = true;
+		if (!found && R.n_late) { r.fail("C01:merged-late-upstream-fragment-after-wrap", scn::fmt("the server wrote a %zu-byte packet to its tun device that the scripted sender never sent (first fragment of the current packet + a late copy of the last fragment of the packet that had the same sequence number eight packets earlier): %s", w.data.size(), hexs(w.data, 48).c_str()) + "\n" + r.render); break; }
 		if (!found) { r.fail(merged ? (R.n_merge_lost_first ? "C01:merged-upstream-first-fragment-lost" : "C01:merged-after-wrap") : (R.n_stray ? "C01:fabricated-after-stray" : "C01:fabricated-after-wrap"), scn::fmt("the server wrote a %zu-byte packet to its tun device that the scripted sender never sent: %s", w.data.size(), hexs(w.data, 48).c_str()) + "\n" + r.render); break; }
 	}
-	r.nontrivial = R.n_wrap + R.n_merge + R.n_glue + R.n_stray >= 1;
-	r.cls("scripted-sender"); if (R.n_wrap) r.cls("sequence-number-wrap-with-crafted-packet"); if (R.n_merge) r.cls("sequence-number-wrap-after-abandoned-first-fragment"); if (R.n_glue) r.cls("packet-crafted-against-stale-buffer-contents"); if (R.n_excluded_k4) r.cls("excluded-known:K4-new-first-fragment-lost-too"); if (R.n_stray) r.cls("late-copy-of-an-old-last-fragment");
+	r.nontrivial = R.n_wrap + R.n_merge + R.n_glue + R.n_stray + R.n_late >= 1;
+	r.cls("scripted-sender"); if (R.n_wrap) r.cls("sequence-number-wrap-with-crafted-packet"); if (R.n_merge) r.cls("sequence-number-wrap-after-abandoned-first-fragment"); if (R.n_glue) r.cls("packet-crafted-against-stale-buffer-contents"); if (R.n_excluded_k4) r.cls("excluded-known:K4-new-first-fragment-lost-too"); if (R.n_stray) r.cls("late-copy-of-an-old-last-fragment"); if (R.n_late) r.cls("late-copy-of-a-last-fragment-eight-packets-on"); if (R.n_excluded_k5) r.cls("excluded-known:K5-late-fragment-after-wrap");
 	return r;
 }
 
